@@ -18,8 +18,13 @@ import (
 	"strings"
 	"time"
 
+	databasev1 "github.com/apache/skywalking-banyandb/api/proto/banyandb/database/v1"
+	modelv1 "github.com/apache/skywalking-banyandb/api/proto/banyandb/model/v1"
 	benc "github.com/apache/skywalking-banyandb/banyand/internal/encoding"
 	"github.com/apache/skywalking-banyandb/banyand/internal/verifdrv/drv"
+	"github.com/apache/skywalking-banyandb/banyand/measure"
+	"github.com/apache/skywalking-banyandb/banyand/stream"
+	"github.com/apache/skywalking-banyandb/banyand/trace"
 	"github.com/apache/skywalking-banyandb/pkg/bytes"
 	"github.com/apache/skywalking-banyandb/pkg/compress/zstd"
 	"github.com/apache/skywalking-banyandb/pkg/convert"
@@ -27,6 +32,7 @@ import (
 	"github.com/apache/skywalking-banyandb/pkg/encoding/vararray"
 	"github.com/apache/skywalking-banyandb/pkg/logger"
 	pbv1 "github.com/apache/skywalking-banyandb/pkg/pb/v1"
+	"google.golang.org/protobuf/types/known/timestamppb"
 )
 
 const (
@@ -390,6 +396,8 @@ func tokens(f []string) string {
 		walk(encoding.EncodeUint64Block(nil, u64s(f[1:])), 1, &toks)
 	case "bb":
 		walk(encoding.EncodeBytesBlock(nil, items(f[1:])), 2, &toks)
+	case "bbt":
+		walk(encoding.EncodeBytesBlock(nil, items(f[2:])), 2, &toks)
 	case "cblk":
 		walk(encoding.VerifCompressBlock(item(f[1])), 1, &toks)
 	case "dict":
@@ -448,6 +456,79 @@ func tokens(f []string) string {
 		return "-"
 	}
 	return strings.Join(toks, " ")
+}
+
+// ---------------------------------------------------------------------------------------
+// per-engine tag value marshalling (measure / stream / trace each carry their own copy)
+
+func tvParse(typ string, a []string) (databasev1.TagType, *modelv1.TagValue) {
+	switch typ {
+	case "str":
+		return databasev1.TagType_TAG_TYPE_STRING, &modelv1.TagValue{Value: &modelv1.TagValue_Str{Str: &modelv1.Str{Value: string(drv.UnHex(a[0]))}}}
+	case "bin":
+		return databasev1.TagType_TAG_TYPE_DATA_BINARY, &modelv1.TagValue{Value: &modelv1.TagValue_BinaryData{BinaryData: drv.UnHex(a[0])}}
+	case "int":
+		return databasev1.TagType_TAG_TYPE_INT, &modelv1.TagValue{Value: &modelv1.TagValue_Int{Int: &modelv1.Int{Value: i64s(a[:1])[0]}}}
+	case "sarr":
+		var vs []string
+		for _, h := range a {
+			vs = append(vs, string(drv.UnHex(h)))
+		}
+		return databasev1.TagType_TAG_TYPE_STRING_ARRAY, &modelv1.TagValue{Value: &modelv1.TagValue_StrArray{StrArray: &modelv1.StrArray{Value: vs}}}
+	case "iarr":
+		return databasev1.TagType_TAG_TYPE_INT_ARRAY, &modelv1.TagValue{Value: &modelv1.TagValue_IntArray{IntArray: &modelv1.IntArray{Value: i64s(a)}}}
+	case "ts":
+		v := i64s(a[:2])
+		return databasev1.TagType_TAG_TYPE_TIMESTAMP, &modelv1.TagValue{Value: &modelv1.TagValue_Timestamp{Timestamp: &timestamppb.Timestamp{Seconds: v[0], Nanos: int32(v[1])}}}
+	case "null":
+		tt := map[string]databasev1.TagType{
+			"str": databasev1.TagType_TAG_TYPE_STRING, "bin": databasev1.TagType_TAG_TYPE_DATA_BINARY,
+			"int": databasev1.TagType_TAG_TYPE_INT, "sarr": databasev1.TagType_TAG_TYPE_STRING_ARRAY,
+			"iarr": databasev1.TagType_TAG_TYPE_INT_ARRAY, "ts": databasev1.TagType_TAG_TYPE_TIMESTAMP,
+		}[a[0]]
+		return tt, pbv1.NullTagValue
+	}
+	panic("bad tv type " + typ)
+}
+
+func tvShow(tv *modelv1.TagValue) string {
+	switch v := tv.GetValue().(type) {
+	case *modelv1.TagValue_Null:
+		return "N"
+	case *modelv1.TagValue_Str:
+		return "S" + drv.Hex([]byte(v.Str.GetValue()))
+	case *modelv1.TagValue_BinaryData:
+		return "B" + drv.Hex(v.BinaryData)
+	case *modelv1.TagValue_Int:
+		return "I" + strconv.FormatInt(v.Int.GetValue(), 10)
+	case *modelv1.TagValue_StrArray:
+		p := []string{"SA"}
+		for _, s := range v.StrArray.GetValue() {
+			p = append(p, drv.Hex([]byte(s)))
+		}
+		return strings.Join(p, " ")
+	case *modelv1.TagValue_IntArray:
+		p := []string{"IA"}
+		for _, i := range v.IntArray.GetValue() {
+			p = append(p, strconv.FormatInt(i, 10))
+		}
+		return strings.Join(p, " ")
+	case *modelv1.TagValue_Timestamp:
+		return fmt.Sprintf("T%d:%d", v.Timestamp.GetSeconds(), v.Timestamp.GetNanos())
+	}
+	return "?"
+}
+
+func tvRoundTrip(engine string, tt databasev1.TagType, tv *modelv1.TagValue) ([]byte, *modelv1.TagValue) {
+	switch engine {
+	case "m":
+		return measure.VerifC11TagRoundTrip(tt, tv)
+	case "s":
+		return stream.VerifC11TagRoundTrip(tt, tv)
+	case "t":
+		return trace.VerifC11TagRoundTrip(tt, tv)
+	}
+	panic("bad engine " + engine)
 }
 
 // ---------------------------------------------------------------------------------------
@@ -571,6 +652,24 @@ func handle(f []string) string {
 			return drv.Hex(enc) + " ="
 		}
 		return drv.Hex(enc) + " NE " + showItems(out)
+	case "tv":
+		tt, tv := tvParse(a[1], a[2:])
+		raw, out := tvRoundTrip(a[0], tt, tv)
+		return showItem(raw) + " " + tvShow(out)
+	case "bbt":
+		// EncodeBytesBlock + trailing bytes, decoded by a zero-value BytesBlockDecoder.DecodeWithTail
+		tailIn := drv.UnHex(a[0])
+		its := items(a[1:])
+		enc := encoding.EncodeBytesBlock(nil, its)
+		var dec encoding.BytesBlockDecoder
+		out, tail, err := dec.DecodeWithTail(nil, append(append([]byte(nil), enc...), tailIn...), uint64(len(its)))
+		if err != nil {
+			return drv.Hex(enc) + " ERR"
+		}
+		if sameItems(out, its) && string(tail) == string(tailIn) {
+			return drv.Hex(enc) + " ="
+		}
+		return fmt.Sprintf("%s NE %s tail=%s", drv.Hex(enc), showItems(out), drv.Hex(tail))
 	case "rle":
 		var src []uint32
 		for _, u := range u64s(a) {
